@@ -461,8 +461,17 @@ def r6(ctx):
         btw_ok = False
         for lf in mine:
             for t, v in lf.cond:
+                x = None
                 if t[0] == "bin" and t[1] == "Eq" and T.I(0, "u64") in (t[2], t[3]):
                     x = t[2] if t[3] == T.I(0, "u64") else t[3]
+                else:
+                    # ... or a case split on how many blockers there are (`match between.count() { 0 => .., 1 => .., _ => .. }`)
+                    y = t
+                    while y[0] == "cast":
+                        y = y[2]
+                    if y[0] == "count_ones":
+                        x = y[1]
+                if x is not None:
                     b = [s_ for s_ in subterms(x) if s_[0] == "app" and s_[1] == "chess_lookup::between"]
                     if len(b) == 1 and is_ksq(b[0][2][0]) and canon(x) == canon(C.AND(C.all(), word(b[0]))):
                         btw_ok = True
